@@ -86,6 +86,8 @@ class OpsMixin:
             self.emit(step, "failed:" + ",".join(f"{r}={results[r][1]}" for r in sorted(results)))
             return None
         pt = PTable(new_id, new_m, reals_out, step.get("s", 0))
+        if self.cq_reps:
+            self.produce_compile_only(pt, step, inputs, real_fn)
         self.tables[new_id] = pt
         self.stats["tables"] += 1
         self.states.add((new_m.abstract_state(), step["op"]))
@@ -97,6 +99,25 @@ class OpsMixin:
         d = self.after_produce(pt, step, inputs)
         self.emit(step, "ok", d)
         return pt
+
+    def produce_compile_only(self, pt, step, inputs, real_fn):
+        """the same verb on the compile-only dialect replicas (C19)"""
+        for rep in self.cq_reps:
+            if not all(rep in p.cq for p in inputs):
+                continue
+            reals = [p.cq[rep] for p in inputs]
+            try:
+                res = self.call(lambda rep=rep, reals=reals: real_fn(rep, reals))
+                if res[0] == "exc" and res[1] == "SubqueryError":
+                    res = self.call(lambda rep=rep, reals=reals: real_fn(rep, [t >> pdt.alias() for t in reals]))
+            except Skip:
+                continue
+            if res[0] == "ok":
+                pt.cq[rep] = res[1]
+            else:
+                self.stats[f"cq_verb_exc:{rep}:{res[1]}"] += 1
+                if "O19" in self.fam and res[1] not in ("SubqueryError", "NotSupportedError") and "polars" in pt.real:
+                    self.violate("C19", "O19.x", f"`{step['op']}` accepted on polars raised {res[1]} on the {rep} dialect: {str(res[2])[:160]}", rep=rep, cls=res[1], op=step["op"])
 
     def guarded(self, fn, step):
         """call fn under the per-step fault regime (interrupt population)"""
@@ -208,7 +229,7 @@ class OpsMixin:
         tid = f"t{step['i']}"
         m = self.model.src(tid, step["T"])
         real = {rep: self.world.src(step["T"], rep) for rep in self.replicas}
-        pt = PTable(tid, m, real, step.get("s", 0))
+        pt = PTable(tid, m, real, step.get("s", 0), cq={rep: self.world.src(step["T"], rep) for rep in self.cq_reps})
         self.tables[tid] = pt
         self.stats["tables"] += 1
         d = self.after_produce(pt, step, [])
